@@ -33,7 +33,7 @@ PROPS = {
             },
         )],
         bounds=dict(
-            quick="streams of <= 4 tokens + EOF, every token type an arbitrary 32-bit value != EOF, elision set one of {-2,-3}, {-64,9}, {-70,64} (next to EOF, far from it, positive); cursors arbitrary 64-bit ints subject to the representation invariant; one operation from an arbitrary valid state (induction step) + base case; match predicate = one arbitrary bit per token",
+            quick="streams of <= 4 tokens + EOF, every token type an arbitrary 32-bit value != EOF, elision set one of {-2,-3}, {-64,9}, {-70,64}, {EOF,-2} (next to EOF, far from it, positive, naming EOF itself); cursors arbitrary 64-bit ints subject to the representation invariant; one operation from an arbitrary valid state (induction step) + base case; match predicate = one arbitrary bit per token",
             thorough="as quick with streams of <= 7 tokens + EOF",
         ),
         outside="streams longer than the bound; elision sets other than two types (the code treats the set only through map membership)",
@@ -214,11 +214,11 @@ PROPS = {
         level="model_checking",
         level_text="decided through a sufficient condition plus symbolic schedules at the granularity of Next: (1) frame condition: after Build / lexer.New / package init every object reachable from the Parser, the lexer Definition and the package-level EBNF parser is frozen in the executor; on every feasible path of Parse*/Lex/String and LexString+Next over symbolic inputs a store into a frozen cell, a write to a frozen map or an append into a frozen slice's spare capacity ends the path as a violation, so concurrent calls work on disjoint mutable memory; (2) history independence: the same call repeated on the same object returns the same result, and for back-reference definitions lexing after an arbitrary earlier input equals lexing with a fresh definition (transparency of the one shared mutable structure, the sync.Map cache); (3) two lexers of one definition advanced in an order given by symbolic schedule bits deliver, for every schedule, the streams fresh definitions deliver alone",
         level_note="trusted: sync.Map is linearizable and *regexp.Regexp / reflect caches are safe for concurrent use (stdlib contracts); the executor's heap model (cells = Go variables; maps and slices tracked as described); real interleavings and the race detector are outside this technique; bounds as C01/C03",
-        runs=[dict(pkg=".", files=["root/zz_verif_ref.go", "root/zz_verif_ggcore.go", "root/zz_verif_parse.go", "root/zz_verif_grammars.go", "root/zz_verif_entry.go", "root/zz_verif_conc.go", "root/zz_verif_map.go"], harness="^VH_C09_", reach={"VH_C09_Parse_Alt": ["accepted", "rejected"], "VH_C09_Parse_Union": ["accepted"], "VH_C09_Parse_Mapped": ["mapped"], "VH_C09_Parse_Retained": ["accepted"], "VH_C09_Parse_RetainedCapture": ["accepted"]}),
+        runs=[dict(pkg=".", files=["root/zz_verif_ref.go", "root/zz_verif_ggcore.go", "root/zz_verif_parse.go", "root/zz_verif_grammars.go", "root/zz_verif_entry.go", "root/zz_verif_conc.go", "root/zz_verif_map.go"], harness="^VH_C09_", reach={"VH_C09_Parse_Alt": ["accepted", "rejected"], "VH_C09_Parse_Union": ["accepted"], "VH_C09_Parse_Mapped": ["mapped"], "VH_C09_Parse_Retained": ["accepted"], "VH_C09_Parse_RetainedCapture": ["accepted"], "VH_C09_Production": ["accepted", "rejected"]}),
               dict(pkg="lexer", files=["lexer/zz_verif_stateful.go", "lexer/zz_verif_lexdefs.go", "lexer/zz_verif_lexgen.go", "lexer/zz_verif_conc.go"], harness="^VH_C09_",
                    reach={"VH_C09_Frame_PushPop": ["lexed", "error"], "VH_C09_History_Backref": ["compared"], "VH_C09_History_Collide": ["compared"], "VH_C09_Interleave_PushPop": ["interleaved"], "VH_C09_Interleave_Backref": ["interleaved"], "VH_C09_Interleave_Zero": ["interleaved"]}),
               dict(pkg="ebnf", files=["ebnf/zz_verif_ebnf.go", "root/zz_verif_ggcore.go"], harness="^VH_C09_", reach={"VH_C09_EBNFParser": ["parsed", "failed"]})],
-        bounds=dict(quick="parser: 6 grammars x streams <= 5 tokens (3 Parse calls + String + Lex per path on one frozen parser); 2 token-retaining grammars (node Tokens, []lexer.Token capture): the AST of a parse re-inspected after parses of a different input; lexer: 5 definitions x inputs <= 3 bytes lexed twice on one frozen definition; cache: 2 back-reference definitions, first input <= 3 (2) bytes, second <= 3 (4) bytes over a 3-letter alphabet incl. NUL; interleaving: 4 definitions, two lexers of one frozen definition on two inputs of <= 2 arbitrary bytes (<= 3-4 bytes over a 3-letter alphabet for the back-reference definitions), the order of their Next calls chosen by the solver (one symbolic bit per step), each stream compared with a fresh definition used alone; ebnf: 4 texts on the frozen package-level parser",
+        bounds=dict(quick="parser: 6 grammars x streams <= 5 tokens (3 Parse calls + String + Lex per path on one frozen parser); 2 token-retaining grammars (node Tokens, []lexer.Token capture): the AST of a parse re-inspected after parses of a different input; ParserForProduction on a frozen parser (String() and parse results of the original unchanged); lexer: 5 definitions x inputs <= 3 bytes lexed twice on one frozen definition; cache: 2 back-reference definitions, first input <= 3 (2) bytes, second <= 3 (4) bytes over a 3-letter alphabet incl. NUL; interleaving: 4 definitions, two lexers of one frozen definition on two inputs of <= 2 arbitrary bytes (<= 3-4 bytes over a 3-letter alphabet for the back-reference definitions), the order of their Next calls chosen by the solver (one symbolic bit per step), each stream compared with a fresh definition used alone; ebnf: 4 texts on the frozen package-level parser",
                     thorough="streams <= 6 tokens; inputs <= 4 bytes"),
         outside="real schedules, the Go memory model below the level of variables, races inside user mappers / Parseable code, generated lexers (their definition value is an empty struct; per-call state only)",
         assumptions=["no data race is possible between calls that write only memory they allocated themselves or were handed by the caller (Go memory model)"],
